@@ -132,6 +132,13 @@ OUTSIDE["C13"] = "MEASURED LIMIT: RR::from_string (chomp combinators) is tractab
 
 # ---------------------------------------------------------------- C14
 _f14 = ["synth::gen::raw_name_from_str", "synth::gen::copy_raw_name_from_str"]
+_dots = ["a..", "..", ".a", "a..b", "a.b..", ".", "a.", "", "a.b.", "...", "a.b", "ab.."]
+for i in range(12):
+    add("text_dots%d" % i, ["C14"], tier="quick", timeout=600, est=15, path="registry::h_c14::proofs::", funcs=_f14,
+        bound="raw_name_from_str on the concrete text %r (dot handling: empty labels in every position), no zone" % _dots[i])
+for i in (0, 4, 6, 10):
+    add("text_dots%d_zone" % i, ["C14"], tier="quick", timeout=600, est=15, path="registry::h_c14::proofs::", funcs=_f14,
+        bound="raw_name_from_str on the concrete text %r with zone" % _dots[i])
 add("text_l1", ["C14"], tier="quick", timeout=900, est=30, path="registry::h_c14::proofs::", funcs=_f14,
     bound="raw_name_from_str on every 1-byte string")
 _pre = ["", "a", "a.", "a.b", ".", "ab", "a.b.", "a-", "_x.y", "1.2"]
